@@ -195,16 +195,39 @@ func checkC04(r *Run) {
 				continue
 			}
 			bin, ok := iff.Cond.(*ssa.BinOp)
-			if !ok || bin.Op != token.EQL {
+			if !ok {
 				continue
 			}
-			base, isQ := isFieldLoad(bin.X, "Message", "QoS")
-			k, isK := constInt(bin.Y)
+			// any comparison of the parsed QoS with a constant, either way round
+			x, y, op := bin.X, bin.Y, bin.Op
+			if _, isK := constInt(x); isK {
+				x, y = y, x
+				op = map[token.Token]token.Token{token.LSS: token.GTR, token.GTR: token.LSS, token.LEQ: token.GEQ, token.GEQ: token.LEQ, token.EQL: token.EQL, token.NEQ: token.NEQ}[op]
+			}
+			base, isQ := isFieldLoad(c.Resolve(stripConv(x)), "Message", "QoS")
+			k, isK := constInt(y)
 			if !isQ || !isK || !isParsedMsg(base) {
 				continue
 			}
+			var holds bool
+			switch op {
+			case token.EQL:
+				holds = int64(q) == k
+			case token.NEQ:
+				holds = int64(q) != k
+			case token.LSS:
+				holds = int64(q) < k
+			case token.LEQ:
+				holds = int64(q) <= k
+			case token.GTR:
+				holds = int64(q) > k
+			case token.GEQ:
+				holds = int64(q) >= k
+			default:
+				continue
+			}
 			qosDecided++
-			if int64(q) == k {
+			if holds {
 				decided[b] = 0
 			} else {
 				decided[b] = 1
